@@ -101,6 +101,117 @@ theorem hasPayload_false_of_modes : ∀ (is : Items), payloadModes is = [] → i
     | typedef a b c => simpa [Items.hasPayload] using hasPayload_false_of_modes r (by simpa [payloadModes] using h)
     | optional a b c d => simpa [Items.hasPayload] using hasPayload_false_of_modes r (by simpa [payloadModes] using h)
 
+/-- inversion of a successful optional field, with the flag that governed it -/
+theorem optional_inv (c : Cfg) (id : String) (ty : Ty) (cid : String) (cval : Nat) (bs : Bytes)
+    (st st' : DState) (r : Bytes) (h : decItem c (.optional id ty cid cval) bs st = .ok (st', r)) :
+    ∃ cv, st.ctx.get (.val cid) = some cv ∧
+      ((cv = cval ∧ ∃ x, decTy c ty bs = .ok (x, r) ∧ st' = { st with fields := st.fields ++ [(id, x)] }) ∨
+       (cv ≠ cval ∧ r = bs ∧ st' = { st with fields := st.fields ++ [(id, .null)] })) := by
+  simp only [decItem] at h
+  cases hctx : st.ctx.get (.val cid) with
+  | none => simp [hctx] at h
+  | some cv =>
+    refine ⟨cv, rfl, ?_⟩
+    simp only [hctx] at h
+    by_cases hcv : cv = cval
+    · simp only [hcv, ↓reduceIte] at h
+      have fin : (Outcome.bind (decTy c ty bs) fun x =>
+          Outcome.ok ({ ctx := st.ctx, fields := st.fields ++ [(id, x.fst)], payload := st.payload }, x.snd))
+            = .ok (st', r) →
+          ∃ x, decTy c ty bs = .ok (x, r) ∧ st' = { st with fields := st.fields ++ [(id, x)] } := by
+        intro hb
+        obtain ⟨⟨x, r'⟩, h1, h2⟩ := bind_ok _ _ _ hb
+        simp only [Outcome.ok.injEq, Prod.mk.injEq] at h2
+        exact ⟨x, by rw [h1, h2.2], h2.1.symm⟩
+      refine Or.inl ⟨hcv, ?_⟩
+      cases ty with
+      | scalar w =>
+        simp only at h
+        split at h
+        · cases h
+        · exact fin h
+      | enumTy nm en =>
+        simp only at h
+        split at h
+        · cases h
+        · exact fin h
+      | custom nm w =>
+        simp only [Bool.false_eq_true, ↓reduceIte] at h
+        exact fin h
+      | struct nm b =>
+        simp only [Bool.false_eq_true, ↓reduceIte] at h
+        exact fin h
+    · simp only [hcv, ↓reduceIte, Outcome.ok.injEq, Prod.mk.injEq] at h
+      exact Or.inr ⟨hcv, h.2.symm, h.1.symm⟩
+
+/-- a decoded field value is never the absent value -/
+theorem decTy_not_null (c : Cfg) (ty : Ty) (hw : exactWfTy ty = true) (bs : Bytes) (x : Value) (r : Bytes)
+    (h : decTy c ty bs = .ok (x, r)) : x ≠ .null := by
+  cases ty with
+  | scalar w =>
+    simp only [decTy] at h
+    obtain ⟨⟨n, r'⟩, _, h2⟩ := bind_ok _ _ _ h
+    simp only [Outcome.ok.injEq, Prod.mk.injEq] at h2
+    rw [← h2.1]; simp
+  | enumTy nm en =>
+    simp only [decTy] at h
+    obtain ⟨⟨n, r'⟩, _, h2⟩ := bind_ok _ _ _ h
+    simp only at h2
+    split at h2
+    · simp only [Outcome.ok.injEq, Prod.mk.injEq] at h2
+      rw [← h2.1]; simp
+    · cases h2
+  | custom nm w =>
+    simp only [decTy] at h
+    split at h
+    · cases h
+    · obtain ⟨⟨n, r'⟩, _, h2⟩ := bind_ok _ _ _ h
+      simp only [Outcome.ok.injEq, Prod.mk.injEq] at h2
+      rw [← h2.1]; simp
+  | struct nm b =>
+    cases b with
+    | root nm' items =>
+      simp only [decTy, decBody] at h
+      obtain ⟨⟨fin, r'⟩, _, h2⟩ := bind_ok _ _ _ h
+      simp only [Outcome.ok.injEq, Prod.mk.injEq] at h2
+      rw [← h2.1]; simp
+    | derived a b c d e => simp [exactWfTy] at hw
+
+/-- the encoder's inlined optional scalar writes what the element encoder writes (reference mode) -/
+theorem encOptional_of_encTy (c : Cfg) (hc : c.mode = .ideal) (all : Items) (pe : Enc Bytes) (pl : Nat) (v : Value)
+    (id : String) (ty : Ty) (cid : String) (cval : Nat) (x : Value) (hx : x ≠ .null) (hg : v.get? id = some x)
+    (es : Bytes) (h : encTy c ty x = .ok es) :
+    encItem c all pe pl v (.optional id ty cid cval) = .ok es := by
+  cases x with
+  | null => exact absurd rfl hx
+  | int n =>
+    cases ty with
+    | scalar w =>
+      simp only [encTy, elemOutOfRange, hc] at h
+      simp only [encItem, hg]
+      split at h
+      · cases h
+      · rename_i h1
+        split at h
+        · cases h
+        · rename_i h2
+          simp only [decide_eq_true_eq] at h2
+          rw [if_neg h1, if_neg (fun hh => h2 hh.2)]; exact h
+    | _ => simpa [encItem, hg] using h
+  | arr vs =>
+    cases ty with
+    | scalar w => simp [encTy] at h
+    | _ => simpa [encItem, hg] using h
+  | obj fs =>
+    cases ty with
+    | scalar w => simp [encTy] at h
+    | _ => simpa [encItem, hg] using h
+
+theorem Fact_of_optItems (all is is' : Items) (pl : Nat) (v : Value) (k : Key) (y : Nat)
+    (h : optItems is' = optItems is) (hf : Fact all is pl v k y) : Fact all is' pl v k y := by
+  cases k <;> simp only [Fact, h] at hf ⊢ <;> exact hf
+
+
 mutual
 /-- field and element types: what the decoder consumed is the reference encoding of what it returned -/
 theorem ty_exact (ce cd : Cfg) (hce : ce.mode = .ideal) (hee : ce.e = cd.e) : ∀ (ty : Ty), exactWfTy ty = true →
@@ -214,12 +325,14 @@ theorem items_exact (ce cd : Cfg) (hce : ce.mode = .ideal) (hee : ce.e = cd.e) (
       (∀ t ∈ arrayItems is, t ∈ arrayItems all) → (∀ md ∈ payloadModes is, payloadMode all = some md) →
       decItems cd is bs st = .ok (fin, rest) →
       (∃ es, encItems ce all (.ok p) p.length v is = .ok es ∧ bs = es ++ rest) ∧
-      (∀ k y, st.ctx.get k = some y → k ∉ keysBound is → consumes is k = true → Fact all p.length v k y)
+      (∀ k y, st.ctx.get k = some y → k ∉ keysBound is → consumes is k = true → Fact all is p.length v k y)
   | .nil, bs, rest, st, _, _, _, _, _, hd => by
     simp only [decItems, Outcome.ok.injEq, Prod.mk.injEq] at hd
     refine ⟨⟨[], by simp [encItems], by simp [hd.2]⟩, ?_⟩
     intro k y _ _ hc
-    cases k <;> simp [consumes, arrayShape, payloadMode] at hc
+    cases k with
+    | val id => simp [Fact, optItems]
+    | _ => simp [consumes, arrayShape, payloadMode] at hc
   | .cons i r, bs, rest, st, hw, hkb, hpl, harr, hpm, hd => by
     simp only [exactWfItems, Bool.and_eq_true] at hw
     obtain ⟨hwi, hwr⟩ := hw
@@ -250,7 +363,45 @@ theorem items_exact (ce cd : Cfg) (hce : ce.mode = .ideal) (hee : ce.e = cd.e) (
       intro es1 q1 q2
       exact ⟨es1 ++ es2, by simp [encItems, q1, he2, Outcome.bind], by rw [q2, hb2, List.append_assoc]⟩
     cases i with
-    | optional id ty cid cval => simp [exactWfItem] at hwi
+    | optional id ty cid cval =>
+      simp only [exactWfItem] at hwi
+      obtain ⟨cv, hcv, hcase⟩ := optional_inv cd id ty cid cval bs st st1 b1 h1
+      have hctx1 : st1.ctx = st.ctx := by
+        rcases hcase with ⟨_, x, _, rfl⟩ | ⟨_, _, rfl⟩ <;> rfl
+      -- presence of the field against the flag
+      have hpres : isPresent v id = true ↔ cv = cval := by
+        rcases hcase with ⟨hc, x, hx, rfl⟩ | ⟨hc, _, rfl⟩
+        · have hget : v.get? id = some x := hag1 id x (by simp)
+          have hnn := decTy_not_null cd ty hwi bs x b1 hx
+          refine ⟨fun _ => hc, fun _ => ?_⟩
+          cases x <;> first | exact absurd rfl hnn | simp [isPresent, hget]
+        · have hget : v.get? id = some .null := hag1 id .null (by simp)
+          refine ⟨fun h => ?_, fun h => absurd h hc⟩
+          simp [isPresent, hget] at h
+      refine ⟨?_, ?_⟩
+      · rcases hcase with ⟨hc, x, hx, rfl⟩ | ⟨hc, hb, rfl⟩
+        · obtain ⟨es1, q1, q2⟩ := ty_exact ce cd hce hee ty hwi bs x b1 hx
+          have hget : v.get? id = some x := hag1 id x (by simp)
+          exact fin1 es1 (encOptional_of_encTy ce hce all _ _ v id ty cid cval x
+            (decTy_not_null cd ty hwi bs x b1 hx) hget es1 q1) q2
+        · have hget : v.get? id = some .null := hag1 id .null (by simp)
+          exact fin1 [] (by simp [encItem, hget]) (by simp [hb])
+      · intro k y hy hnk hc
+        have hc' : consumes r k = true := by
+          cases k <;> first | rfl | simpa [consumes, arrayShape, payloadMode] using hc
+        have hf := hfacts k y (by rw [hctx1]; exact hy) (by simpa [keysBound] using hnk) hc'
+        cases k with
+        | val k' =>
+          simp only [Fact, optItems, List.mem_cons, Prod.mk.injEq] at hf ⊢
+          intro oid cv' hm
+          rcases hm with ⟨rfl, rfl, rfl⟩ | hm
+          · rw [hcv] at hy
+            simp only [Option.some.injEq] at hy
+            subst hy; exact hpres
+          · exact hf oid cv' hm
+        | size t => exact hf
+        | count t => exact hf
+        | esize t => exact hf
     | chunk fs =>
       simp only [exactWfItem, Bool.and_eq_true, beq_iff_eq, List.all_eq_true] at hwi
       obtain ⟨hbits, hbf⟩ := hwi
@@ -265,10 +416,10 @@ theorem items_exact (ce cd : Cfg) (hce : ce.mode = .ideal) (hee : ce.e = cd.e) (
         obtain ⟨rfl, rfl⟩ := hc2
         have hc1' : decChunkFields (cd.mode == .ideal) fs 0 (rdInt cd.e (bs.take (chunkBits fs / 8))) st = .ok stc := by
           cases hE : cd.e <;> simpa [rdInt, hE] using hc1
-        have hfact1 : ∀ k ∈ chunkKeys fs, ∀ y, stc.ctx.get k = some y → Fact all p.length v k y := by
+        have hfact1 : ∀ k ∈ chunkKeys fs, ∀ y, stc.ctx.get k = some y → Fact all r p.length v k y := by
           intro k hk y hy
           rcases bfExact_consumes r fs k hbf hk with ⟨id, rfl⟩ | hc
-          · trivial
+          · exact hfacts _ y hy (fun hkr => hdisj _ hk _ hkr rfl) rfl
           · exact hfacts k y hy (fun hkr => hdisj k hk k hkr rfl) hc
         have hce' := chunk_exact (cd.mode == .ideal) all r p.length v
           (fun md h => hpm_r md (payloadMode_mem r md h)) fs 0 _ 0 st stc hbf hndc hc1' hag1 hfact1
@@ -284,8 +435,9 @@ theorem items_exact (ce cd : Cfg) (hce : ce.mode = .ideal) (hee : ce.e = cd.e) (
           simp only [keysBound, List.mem_append, not_or] at hnk
           have hmono := (decChunkFields_mono _ fs _ _ st stc hc1').2.2 k hnk.1
           have hc' : consumes r k = true := by
-            cases k <;> simpa [consumes, arrayShape, payloadMode] using hc
-          exact hfacts k y (by rw [hmono]; exact hy) hnk.2 hc'
+            cases k <;> first | rfl | simpa [consumes, arrayShape, payloadMode] using hc
+          exact Fact_of_optItems all r _ _ v k y (by simp [optItems])
+            (hfacts k y (by rw [hmono]; exact hy) hnk.2 hc')
     | typedef id ty sb =>
       simp only [exactWfItem] at hwi
       obtain ⟨x, hx, rfl⟩ := typedef_ok cd id ty sb bs st st1 b1 h1
@@ -294,8 +446,9 @@ theorem items_exact (ce cd : Cfg) (hce : ce.mode = .ideal) (hee : ce.e = cd.e) (
       refine ⟨fin1 es1 (by simp only [encItem, hget]; exact q1) q2, ?_⟩
       intro k y hy hnk hc
       have hc' : consumes r k = true := by
-        cases k <;> simpa [consumes, arrayShape, payloadMode] using hc
-      exact hfacts k y hy (by simpa [keysBound] using hnk) hc'
+        cases k <;> first | rfl | simpa [consumes, arrayShape, payloadMode] using hc
+      exact Fact_of_optItems all r _ _ v k y (by simp [optItems])
+        (hfacts k y hy (by simpa [keysBound] using hnk) hc')
     | payload mode =>
       obtain ⟨p', rfl, hbs, hsz⟩ := payload_item_ok cd mode bs b1 st st1 h1
       have hr0 : payloadModes r = [] := by
@@ -333,7 +486,9 @@ theorem items_exact (ce cd : Cfg) (hce : ce.mode = .ideal) (hee : ce.e = cd.e) (
         have hc' : consumes r (.count t) = true := by simpa [consumes, arrayShape] using hc
         exact hfacts _ y hy (by simpa [keysBound] using hnk) hc'
       | esize t => simp [consumes] at hc
-      | val id => simp [consumes] at hc
+      | val id =>
+        exact Fact_of_optItems all r _ _ v _ y (by simp [optItems])
+          (hfacts _ y hy (by simpa [keysBound] using hnk) rfl)
     | array id elem ew shape pad =>
       simp only [exactWfItem, Bool.and_eq_true, Option.isNone_iff_eq_none, bne_iff_ne, ne_eq] at hwi
       obtain ⟨⟨⟨⟨⟨hpad, hwt⟩, hlw⟩, hidp⟩, hidb⟩, hew⟩ := hwi
@@ -390,14 +545,16 @@ theorem items_exact (ce cd : Cfg) (hce : ce.mode = .ideal) (hee : ce.e = cd.e) (
               have hc' : consumes r (.size t) = true := by simpa [consumes, hbp, arrayShape, hb] using hc
               exact hfacts _ y hy (by simpa [keysBound] using hnk) hc'
         | esize t => simp [consumes] at hc
-        | val id' => simp [consumes] at hc
+        | val id' =>
+          exact Fact_of_optItems all r _ _ v _ y (by simp [optItems])
+            (hfacts _ y hy (by simpa [keysBound] using hnk) rfl)
 end
 
 
 /-- **C04, "accepts only the reference language".**  For every packet or struct without parent in the
     slack-free class (`exactWfBody`: decidable, evaluated by the check on every generated layout — no reserved
-    bits, padding, optional or element-size fields, array size modifiers; every size / count field delimits a
-    later array or the payload), both byte orders, the decoder model in either mode and EVERY byte string: if
+    bits, padding, element-size fields, array size modifiers; every size / count field delimits a later array
+    or the payload; every condition flag governs optional fields that follow it), both byte orders, the decoder model in either mode and EVERY byte string: if
     `decode` returns `(v, rest)` then the reference-mode encoder accepts `v` and writes exactly the octets that
     were consumed — closed enums, fixed fields, size / count fields, array element sizes all checked on the way
     in are exactly what the encoder writes on the way out.  No bound on lengths, counts, nesting. -/
@@ -459,6 +616,16 @@ example :
       (.cons (.chunk [.size "_payload_" 8 0]) (.cons (.payload (.sized 0)) .nil)))
     exactWfBody (.root "P" items) = true ∧
     (decodeFull { e := .little } (.root "P" items) [2, 7, 1, 0, 2, 0, 1, 0xaa]).isOk = true := by
+  refine ⟨by decide, by rfl⟩
+
+/-! … and so is `packet Q { c: 1, d: 1, t: 6, a: 8 if c = 1, b: 16 if d = 0 }`, whose decoder accepts `41 09`
+    (a present, b absent) -/
+example :
+    let items : Items := .cons (.chunk [.flag "c" [("a", 1)], .flag "d" [("b", 0)], .scalar "t" 6])
+      (.cons (.optional "a" (.scalar 8) "c" 1) (.cons (.optional "b" (.scalar 16) "d" 0) .nil))
+    exactWfBody (.root "Q" items) = true ∧
+    decodeFull { e := .little } (.root "Q" items) [0x43, 9] =
+      .ok (.obj [("t", .int 16), ("a", .int 9), ("b", .null)]) := by
   refine ⟨by decide, by rfl⟩
 
 end Pdlv
